@@ -15,6 +15,7 @@ from common import BUILD, ENV, build_tuc, case_line, parse_result
 from gen import rand_bounds, rand_input
 
 LEVEL = "proof"
+LYING = lambda a: True        # which command lines of cases.rand_cli the lying-size stdin scenario keeps
 
 
 def base_cases(rng, n):
